@@ -301,6 +301,43 @@ func c04(tier string, args []string) int {
 		live.Close()
 		os.RemoveAll(live.Dir)
 	}
+	// the password lifetime ends in the middle of the ceremony (cmd/airgapped checks the password
+	// and runs the command in two separate lock sections, the expiry ticker fits in between): at
+	// every point of the four key-generation operations the machine drops its secrets, the next
+	// operation is processed, and then the database is opened WITHOUT a password - nothing the
+	// machine stored may load
+	{
+		ops := machineOps(r, rec, 0)[:4]
+		for at := 1; at <= 4; at++ {
+			a, err := freshMachineAt(rec, 0, ops, at-1)
+			if err != nil {
+				r.Infra("machine: %v", err)
+			}
+			a.M.DropSensitiveData()
+			o := ops[at-1]
+			_, perr := a.Process(&o)
+			evals++
+			distinct++
+			_ = a.M.VerifCloseDB()
+			for _, wp := range []string{"", "x"} {
+				m, err := airgapped.NewMachine(a.DBPath())
+				if err != nil {
+					r.Infra("reopen: %v", err)
+				}
+				m.SetEncryptionKey([]byte(wp))
+				trace := map[string]interface{}{"password_dropped_before_operation": at, "operation": string(o.Type), "operation_result": fmt.Sprint(perr), "opened_with": wp}
+				if err := m.LoadKeysFromDB(); err == nil {
+					r.Violation("C04/keys-stored-under-another-password/after-expiry", fmt.Sprintf("the password expired before operation %d (%s); afterwards the long-term keys in the database load with the password %q", at, o.Type, wp), trace)
+				}
+				if krs, err := m.GetBLSKeyrings(); err == nil && len(krs) > 0 {
+					r.Violation("C04/share-stored-under-another-password/after-expiry", fmt.Sprintf("the password expired before operation %d (%s); the operation was processed all the same and the BLS share it stored loads with the password %q", at, o.Type, wp), trace)
+				}
+				_ = m.VerifCloseDB()
+			}
+			a.M = nil
+			os.RemoveAll(a.Dir)
+		}
+	}
 	db, err := leveldb.OpenFile(dbCopy+"/db", nil)
 	if err != nil {
 		r.Infra("open raw db: %v", err)
